@@ -13,14 +13,14 @@ git diff -- src > /tmp/wt/$id.patch
 [ -s /tmp/wt/$id.patch ] || { echo "empty patch"; exit 2; }
 export CARGO_NET_OFFLINE=true
 # 1. demo fails with the change
-cargo test --offline --test $demoname >/tmp/wt/$id.with.log 2>&1; with=$?
+cargo test --offline ${FEATURES:-} --test $demoname >/tmp/wt/$id.with.log 2>&1; with=$?
 # 2. the existing suite passes with the change (demo moved away)
 mv $demo /tmp/wt/$id.demo.rs
 cargo test --offline >/tmp/wt/$id.suite.log 2>&1; suite=$?
 mv /tmp/wt/$id.demo.rs $demo
 # 3. demo passes without the change
 git stash push -q -- src
-cargo test --offline --test $demoname >/tmp/wt/$id.without.log 2>&1; without=$?
+cargo test --offline ${FEATURES:-} --test $demoname >/tmp/wt/$id.without.log 2>&1; without=$?
 git stash pop -q
 echo "demo-with-change exit=$with (want !=0); suite-with-change exit=$suite (want 0); demo-without-change exit=$without (want 0)"
 if [ $with -ne 0 ] && [ $suite -eq 0 ] && [ $without -eq 0 ]; then
